@@ -83,9 +83,7 @@ Section NoPanic.
       + (* decode *)
         intros t j cur. cbn [decode].
         destruct t as [r g m u|n|n|n|n|e|e|r e].
-        * destruct r as [|c1 r1]; [apply np_decode_scalar|].
-          destruct c1 as [|p1]; [apply np_decode_scalar|].
-          destruct r1 as [|c2 r2]; repeat (match goal with |- np (match ?x with _ => _ end) => destruct x end); try apply np_decode_scalar; try apply IHd.
+        * destruct (ref_shape r) as [[[] rest]|]; [apply IHd | apply IHd | apply np_decode_scalar].
         * apply np_decode_scalar.
         * apply np_decode_scalar.
         * destruct (assoc n tm) as [[g fields sel inp| | |]|]; try exact I.
